@@ -176,6 +176,61 @@ def g_low_decade(F, rng, tier, ndecades, per_decade):
     return out
 
 
+def g_beyond_range(F, rng, per_binade=1):
+    """G11: short and long decimals in every binade from 70 below the smallest subnormal to the smallest normal, and from
+    the largest finite binade to 70 above it (results 0, subnormal, or infinity: every subnormal / underflow shift of the
+    moderate path is exercised, not only the ones next to the thresholds)."""
+    out = []
+    binades = list(range(F.etiny - 70, F.etiny + F.mbits + 2)) + list(range(F.emax - 1, F.emax + 70))
+    for b in binades:
+        for _ in range(per_binade):
+            # a value x * 2^b, x in [1, 2), written with nd significant digits
+            x_num = rng.randrange(1 << 20, 1 << 21)
+            nd = rng.choice([1, 2, 3, 9, 17, 19])
+            # value = x_num * 2^(b - 20); decimal with nd digits: w = floor(value / 10^q) with q = floor(log10(value)) - nd + 1
+            if b - 20 >= 0:
+                num, den = x_num << (b - 20), 1
+            else:
+                num, den = x_num, 1 << (20 - b)
+            dig = len(str(num // den)) if num >= den else -len(str(den // num)) + 1
+            q = dig - nd
+            w = (num * 10 ** (-q)) // den if q < 0 else num // (den * 10 ** q)
+            while w >= 10 ** nd:
+                w //= 10
+                q += 1
+            if w == 0:
+                continue
+            ds = str(w)
+            for (i, f, e) in forms(ds.rstrip("0") or "0", q + len(ds) - len(ds.rstrip("0") or "0"), rng, nforms=1, long_ok=False)[:1]:
+                out.append(mk(F.name, i, f, e, "G11:binade"))
+            out.append(mk(F.name, ds, "0" * 20 + "1", q, "G11:binade-long"))
+    return out
+
+
+def g_int_ties(F, rng, n):
+    """G10: integers that are an exact tie between two floats plus ONE extra low bit at a chosen position (bit 0, just
+    below the rounding bit, at / next to every 64-bit limb boundary): the sticky information must be collected from
+    every limb of the big integer."""
+    out = []
+    for _ in range(n):
+        L = rng.choice([64, 65, 100, 127, 128, 129, 191, 192, 193, 255, 256, 257, 300, 511, 512, 640, 1000, 1023])
+        if L > F.emax + 1:
+            L = rng.choice([64, 65, 100, 127, 128]) if F.emax >= 127 else 64
+        if L <= F.p + 1:
+            continue
+        m = rng.getrandbits(F.p - 1) | (1 << (F.p - 1))            # p-bit significand
+        m = (m & ~1) | rng.choice([0, 1])
+        tie = (2 * m + 1) << (L - F.p - 1)                           # bit length L, exact midpoint
+        below = L - F.p - 1                                          # number of bits below the rounding bit
+        pos = sorted({0, 1, below - 1} | {k for k in (63, 64, 65, 127, 128, 129, 191, 192) if 0 <= k < below})
+        for k in [None] + (rng.sample(pos, min(3, len(pos))) if below > 0 else []):
+            v = tie if k is None else tie + (1 << k)
+            out.append(mk(F.name, str(v), "", 0, "G10:int-tie" if k is None else "G10:int-tie+bit"))
+            if k is not None and tie - (1 << k) > 0:
+                out.append(mk(F.name, str(tie - (1 << k)), "", 0, "G10:int-tie-bit"))
+    return out
+
+
 def g_floats_exact(F, rng, n):
     """exactly representable values (the float itself, not the midpoint)"""
     out = []
@@ -630,10 +685,22 @@ def g_groups(F, rng, tier):
         if len(ds) > 19:
             group(ds[:19], e10 + len(ds) - 19, "C10:mid19")
             group(ds[:20], e10 + len(ds) - 20, "C10:mid20")
+            group(ds[:18], e10 + len(ds) - 18, "C10:mid18")
         m, e = F.decode(bits)
         if m:
             ds2, e2 = exact_decimal(m, e)
             group(ds2, e2, "C10:float")
+    # short significands that sit next to a midpoint and start low in their decade ("10..."): every digit count 14..19,
+    # both parities, so that appending a zero changes the parity of the significand's digit count
+    for bits in low_decade_midpoints(F, rng, 12 if q else 200, 1 if q else 3):
+        M, k = F.midpoint(bits)
+        ds, e10 = exact_decimal(M, k)
+        n = len(ds)
+        for t in ((16, 17, 18) if q else (10, 12, 14, 15, 16, 17, 18, 19)):
+            if n > t:
+                pre = ds[:t]
+                group(pre, e10 + n - t, "C10:low%d" % t)
+                group(str(int(pre) + 1), e10 + n - t, "C10:low%d+1" % t)
     for ds in ("1", "10", "10000", "12345678901234567890", "9999999999999999999", "18446744073709551616"):
         for e in (0, F.fast_exp, F.fast_exp + 1, -F.fast_exp - 1, F.disg_exp, F.p10_hi - len(ds), F.p10_lo + 5, 4, 8):
             group(ds.rstrip("0") or "1", e + len(ds) - len(ds.rstrip("0")), "C10:seam")
